@@ -169,8 +169,21 @@ fn streams() -> Vec<Vec<Sym>> {
         by(&["A+2000ms:Cont", "A+65000ms:Cont", "B+2000ms:Cont", "A+2000ms:New"]),
         // merge of a buffered lifecycle + out-of-order timestamps (sort has work to do)
         by(&["A+2000ms:Cont", "A+2000ms:Ts0", "A+2000ms:Late3", "B+65000ms:New"]),
+        // (C06 only) a lifecycle confirmed by the timestamp-span rule and then merged into its predecessor
+        by(&["A+2000ms:Cont", "B+65000ms:New", "A+2000ms:Ts0", "A+2000ms:Late3", "A+2000ms:Cont"]),
+        // (C06 only) suspend/resume
+        by(&["A+2000ms:Cont", "A+12000ms:Suspend", "A+65000ms:Cont", "B+2000ms:Cont"]),
+        // (C06 only) slightly overlapping lifecycle confirmed before its still buffered predecessor, then merged
+        by(&["A+2000ms:Cont", "A+2000ms:Overlap", "B+59600ms:Cont", "A+2000ms:Early3", "A+2000ms:Cont"]),
+        // (C06 only) the newer lifecycle is confirmed by its timestamp span while the older one is still buffered,
+        // then the stream ends (only the final flush publishes the older one)
+        by(&["A+2000ms:Cont", "A+2000ms:Overlap", "A+65000ms:Cont"]),
+        // (C06 only) found by the sequential explorer: timestamps 0 then an invalid (max) timestamp: a newer lifecycle
+        // gets confirmed while an older one is still buffered when the stream ends
+        by(&["A+65000ms:Suspend", "A+2000ms:Cont", "A+2000ms:Cont", "A+2000ms:Cont", "A+2000ms:TsMax", "A+2000ms:Cont"]),
     ]
 }
+const C13_STREAMS: usize = 3;
 
 #[derive(Clone, Debug, PartialEq, Eq, Default)]
 struct Outcome {
@@ -375,6 +388,8 @@ fn reference(cfg: &Config, msgs: &[DltMessage]) -> Outcome {
 }
 
 struct ExecCheck {
+    /// judge only the cross-thread publication clause (C06)
+    only_c06: bool,
     cfg: Config,
     reference: Outcome,
     sorted: bool,
@@ -385,6 +400,9 @@ impl ExecCheck {
     fn judge(&self, o: &Outcome) -> Option<(&'static str, String)> {
         if !o.unpublished.is_empty() {
             return Some(("c06_not_published_at_delivery(cross-thread)", format!("messages {:?} delivered to the consumer thread before their lifecycle was visible", o.unpublished)));
+        }
+        if self.only_c06 {
+            return None;
         }
         match self.cfg.consumer {
             Consumer::Drain => {
@@ -417,14 +435,14 @@ impl ExecCheck {
     }
 }
 
-fn explore_config(ctx: &mut Ctx, cfg: &Config, plans: &[(bool, usize)], exec_cap: u64) {
+fn explore_config(ctx: &mut Ctx, cfg: &Config, plans: &[(bool, usize)], exec_cap: u64, only_c06: bool) {
     let all_streams = streams();
     let syms = &all_streams[cfg.stream];
     let msgs = gen_stream(syms, 20_000);
     let reference = reference(cfg, &msgs);
     let sorted = matches!(cfg.shape, Shape::LcSort | Shape::LcSortFilter | Shape::LcPluginsSortFilter);
     let filtered = matches!(cfg.shape, Shape::LcFilter | Shape::LcSortFilter | Shape::LcPluginsSortFilter);
-    let chk = Arc::new(ExecCheck { cfg: cfg.clone(), reference, sorted, filtered });
+    let chk = Arc::new(ExecCheck { only_c06, cfg: cfg.clone(), reference, sorted, filtered });
     for &(delay, bound) in plans {
         let bname = if delay { "delay_bound" } else { "preemption_bound" };
         ctx.begin_family("interleavings", &format!("{} {bname}={bound}", cfg.json()));
@@ -504,9 +522,51 @@ fn explore_config(ctx: &mut Ctx, cfg: &Config, plans: &[(bool, usize)], exec_cap
     }
 }
 
-struct C13;
-impl Prop for C13 {
+struct SchedProp {
+    c06: bool,
+}
+impl SchedProp {
+    fn only_c06(&self) -> bool {
+        self.c06
+    }
+    fn run_c06(&self, ctx: &mut Ctx) {
+        let thorough = ctx.tier == Tier::Thorough;
+        let exec_cap: u64 = if thorough { 3_000_000 } else { 300_000 };
+        for stream in 0..streams().len() {
+            for cap in [0usize, 1, 2] {
+                for shape in [Shape::LcOnly, Shape::LcSort] {
+                    let cfg = Config { shape, cap, consumer: Consumer::Drain, stream };
+                    let mut plans: Vec<(bool, usize)> = (0..=if thorough { 4 } else { 2 }).map(|b| (true, b)).collect();
+                    if shape == Shape::LcOnly {
+                        plans.extend((0..=if thorough { 2 } else { 1 }).map(|b| (false, b)));
+                    }
+                    for plan in plans {
+                        if ctx.mine() {
+                            explore_config(ctx, &cfg, &[plan], exec_cap, true);
+                        }
+                    }
+                    if ctx.out_of_time() {
+                        ctx.sum.capped = true;
+                        return;
+                    }
+                }
+            }
+        }
+    }
+}
+impl Prop for SchedProp {
     fn meta(&self, _t: Tier) -> Meta {
+        if self.c06 {
+            return Meta {
+                id: "C06",
+                level: "model_checking",
+                rule: "cross-thread half of C06: producer -> real lifecycle stage -> [time sort] -> consumer thread over sync_channels of capacity 0/1/2 (shuttle runtime, delay-bounded and preemption-bounded DFS as for C13) on 8 streams that drive every release path of the stage (final flush, mid-stream confirmation, merge of buffered lifecycles, merge of an already confirmed lifecycle, suspend/resume, overlapping lifecycle confirmed before its predecessor); in every schedule the consumer thread looks each received message's lifecycle up through its own evmap ReadHandle at the moment of reception: it must be visible with the message's ECU.".into(),
+                assumptions: vec!["shuttle serialises tasks; evmap runs atomically between scheduling points".into()],
+                budget_s: (40, 900),
+                workers: 0,
+                required_landmarks: vec!["executions", "channel_full_branch_taken"],
+            };
+        }
         Meta {
             id: "C13",
             level: "model_checking",
@@ -520,10 +580,13 @@ impl Prop for C13 {
         }
     }
     fn run(&self, ctx: &mut Ctx) {
+        if self.c06 {
+            return self.run_c06(ctx);
+        }
         let thorough = ctx.tier == Tier::Thorough;
         let caps: &[usize] = &[0, 1, 2];
         let consumers: Vec<Consumer> = vec![Consumer::Drain, Consumer::DropAfter(0), Consumer::DropAfter(1), Consumer::DropAfter(2)];
-        let nstreams = streams().len();
+        let nstreams = C13_STREAMS;
         let exec_cap: u64 = if thorough { 5_000_000 } else { 400_000 };
         for shape in SHAPES {
             for &cap in caps {
@@ -546,7 +609,7 @@ impl Prop for C13 {
                         }
                         for plan in plans {
                             if ctx.mine() {
-                                explore_config(ctx, &cfg, &[plan], exec_cap);
+                                explore_config(ctx, &cfg, &[plan], exec_cap, false);
                             }
                         }
                         if ctx.out_of_time() {
@@ -567,7 +630,7 @@ impl Prop for C13 {
         let reference = reference(&cfg, &msgs);
         let sorted = matches!(cfg.shape, Shape::LcSort | Shape::LcSortFilter | Shape::LcPluginsSortFilter);
         let filtered = matches!(cfg.shape, Shape::LcFilter | Shape::LcSortFilter | Shape::LcPluginsSortFilter);
-        let chk = ExecCheck { cfg: cfg.clone(), reference, sorted, filtered };
+        let chk = ExecCheck { only_c06: self.only_c06(), cfg: cfg.clone(), reference, sorted, filtered };
         let shared = Arc::new(Mutex::new(Shared::default()));
         let out: Arc<Mutex<Option<Outcome>>> = Arc::new(Mutex::new(None));
         let (o2, c2, m2, sh2) = (out.clone(), cfg.clone(), msgs.clone(), shared.clone());
@@ -599,12 +662,12 @@ impl Prop for C13 {
 
 fn main() {
     let args: Vec<String> = std::env::args().collect();
-    if args.len() < 2 || args[1] != "C13" {
-        eprintln!("usage: mc-sched C13 quick|thorough [--replay f]");
+    if args.len() < 2 || (args[1] != "C13" && args[1] != "C06") {
+        eprintln!("usage: mc-sched C13|C06 quick|thorough [--replay f]");
         std::process::exit(2);
     }
     install_panic_hook();
-    let prop = C13;
+    let prop = SchedProp { c06: args[1] == "C06" };
     let seed: u64 = std::env::var("VERIF_SEED").ok().and_then(|s| s.parse().ok()).unwrap_or(0);
     let mut tier = match std::env::var("VERIF_TIER").ok().as_deref() {
         Some("thorough") => Tier::Thorough,
